@@ -87,7 +87,8 @@ def gen(rng, tier):
             'cleaned': bool(world.get('cleaned', world.get('cleaned_hint')) and rng.random() < 0.75) or lc, 'subsamples': sub, 'AB': ab,
             'unpack_bits': unpack, 'passthrough': passthrough,
             'fields': 'all' if passthrough else rng.choice(['DEFAULT_FIELDS', 'all', 'all']),
-            'explicit_cleandir': rng.random() < 0.25, 'zdir_as_path': rng.random() < 0.5}
+            'explicit_cleandir': rng.random() < 0.25, 'zdir_as_path': rng.random() < 0.5,
+            'sub_order': rng.randrange(1 << 20) if rng.random() < 0.5 else None}
 
 
 def run(case):
@@ -106,7 +107,7 @@ def run(case):
         arg, order = C.path_argument(world, gd, case['path'])
         lc = bool(world.get('lc'))
         rows = W.expected_particles(world, order, case['cleaned'] and not lc, case['AB'])
-        kw = dict(cleaned=case['cleaned'], subsamples=copy.deepcopy(case['subsamples']), unpack_bits=case['unpack_bits'],
+        kw = dict(cleaned=case['cleaned'], subsamples=C.subsamples_argument(case), unpack_bits=case['unpack_bits'],
                   passthrough=case['passthrough'], fields=case['fields'])
         if case.get('explicit_cleandir') and case['cleaned'] and not lc:
             import os
